@@ -79,7 +79,7 @@ def prec(n: Node) -> int:
         return 1
     if n.k == "un":
         return P_UNARY
-    if n.k in ("meth", "index", "field", "macro"):
+    if n.k in ("meth", "index", "field", "macro", "obj"):
         return P_MEMBER
     if n.k == "lit":
         tag, p = n.a[0]
@@ -109,6 +109,8 @@ class Printer:
         s = self.p(n)
         if prec(n) < minp:
             return "(" + s + ")"
+        if minp == P_MEMBER and s.isdigit():
+            return "(" + s + ")"  # '1.f' would lex as the float '1.' followed by 'f'
         if self.rnd is not None and self.rnd.random() < self.noise * 0.3:
             return "(" + s + ")"
         return s
@@ -133,6 +135,9 @@ class Printer:
         if k == "bin":
             op, a, b = n.a
             pr = PREC[op]
+            if op == "in":
+                sep1, sep2 = self.sp() or " ", self.sp() or " "
+                return self.wrap(a, pr) + sep1 + op + sep2 + self.wrap(b, pr + 1)
             return self.wrap(a, pr) + self.sp() + op + self.sp() + self.wrap(b, pr + 1)
         if k == "cond":
             c, a, b = n.a
@@ -147,6 +152,8 @@ class Printer:
             return self.wrap(n.a[0], P_MEMBER) + "." + n.a[1]
         if k == "has":
             return "has(" + self.wrap(n.a[0], P_MEMBER) + "." + n.a[1] + ")"
+        if k == "obj":
+            return self.wrap(n.a[0], P_MEMBER) + "{" + ", ".join(f + ": " + self.p(v) for f, v in n.a[1]) + "}"
         if k == "list":
             return "[" + ", ".join(self.p(x) for x in n.a) + "]"
         if k == "map":
